@@ -287,13 +287,22 @@ def part_multipart(chk, ex, mk_rqctx, dflt, ovr, kmax):
     def m_multipart_new(ex, a, c):
         seen['stream'] = dv(a[0])
         return Opaque('multipart', (a[0], dv(a[1])))
+    # the boundary parameter: 1..70 characters (RFC 2046); its length in the encoding of this pass
+    blen = BV('boundary_len')
+    bound_ok = [ule(1, blen), ule(blen, 70)] + in_range([blen])
+    def m_len_boundary(ex, a, c):
+        v = dv(a[0])
+        if isinstance(v, Opaque) and v.tag == 'boundary': return blen
+        from mirsym.models import m_str_len
+        return m_str_len(ex, a, c)
     local = [(r'^(multer::)?parse_boundary::', lambda ex, a, c: ex.ok(Opaque('boundary'))), (r'Multipart::<.*>::new::<|^multer::Multipart::new', m_multipart_new),
+             (r'^String::len$|<impl str>::len$', m_len_boundary),
              (r'Body::into_data_stream$', lambda ex, a, c: Opaque('uncapped-data-stream', dv(a[0])), True)] + [m for m in c10.MODELS if 'into_parts' in m[0]]
     def task_fn(chk, task):
             kinds, has = task
             n_capped = 0
             script0, lens = mk_script(kinds)
-            assume = no_overflow(lens) + rng
+            assume = no_overflow(lens) + rng + bound_ok
             eff = ovr if has else dflt
             def h(ex):
                 Yielder.emitted = []; seen.clear()
@@ -341,15 +350,19 @@ def part_multipart(chk, ex, mk_rqctx, dflt, ovr, kmax):
                         (s_[0] == 'ok' and e[0] == 'ok' and s_[1] is e[1]) or (s_[0] == 'err' and e[0] == 'err' and isinstance(e[1], int) and 400 <= e[1] <= 499)
                         for s_, e in zip(spec, emitted))
                     m = chk.prove(f'{tag}/parser-is-fed-the-body-through-the-limit', pc2, z3.BoolVal(not same), extra=assume,
-                                  prefer=[ule(l, 64) for l in lens] + [ule(dflt, 256), ule(ovr, 256), ule(16, dflt), ule(16, ovr)])
+                                  prefer=[ule(l, 200) for l in lens] + [ule(dflt, 256), ule(ovr, 256), ule(100, dflt), ule(100, ovr), total(lens) == (ovr if has else dflt) + 1])
                     if m is None: return
                     ls, d, o = [concrete(m, l) for l in lens], concrete(m, dflt), concrete(m, ovr)
                     if sum(ls) > 65536 or d > 65536 or (has and o > 65536):
                         chk.mismatches.append(f'model not replayable (sizes too large): multipart {ls} default {d} override {o}'); return
                     lim = o if has else d
-                    case = {'op': 'multipart_body', 'field_len': sum(ls), 'default': d, 'override': o if has else None}
+                    # a real multipart body of exactly the model's total size (form framing included), boundary of the model's length
+                    case = {'op': 'multipart_body', 'body_len': sum(ls), 'boundary_len': concrete(m, blen), 'default': d, 'override': o if has else None}
                     nat = replay([case])[0]
-                    bad = nat.get('seen_max', 0) > lim if nat.get('body_len', 0) > lim else nat.get('status') != 200
+                    if 'unbuildable' in nat:
+                        case = {'op': 'multipart_body', 'field_len': sum(ls), 'default': d, 'override': o if has else None}
+                        nat = replay([case])[0]
+                    bad = (nat.get('status') == 200 or nat.get('seen_max', 0) > lim) if nat.get('body_len', 0) > lim else nat.get('status') != 200
                     chk.counterexample(f'MultipartBody ({how} stream): frames {ls} with limit {lim} reach the multipart parser as {emitted}, the statement says {spec}; '
                                        f'on a real server a form field of {sum(ls)} bytes -> {nat}', case, bad, role='multipart-uncapped' if how == 'uncapped' else 'multipart')
                 refeval.under(list(pc) + assume, lambda d_: spec_stream(script0, eff, d_), then, Inconclusive)
